@@ -1550,7 +1550,7 @@ def kwargs_keys_are_dests(ctx, rid, modname, entry="main"):
             reads.append((n.args[0].value, n))
     if not dests or not reads:
         raise AnalysisError(f"{modname}:{entry}: option destinations / keyword reads not recognised ({len(dests)} / {len(reads)})")
-    R.rule(rid, len({k for k, _ in reads}) and 3, "every key read from **kwargs is the dest of a registered option")
+    R.rule(rid, 1, "every key read from **kwargs is the dest of a registered option")
     for k, node in reads:
         R.check(rid, k in dests, f"{modname}:{entry} reads {k!r}", mod=m, node=node, function=ctx.fq(fi),
                 expected=f"one of the registered destinations {sorted(dests)}"[:300],
